@@ -83,6 +83,24 @@ func zzDeepEqualAny(a, b interface{}) bool {
 	case float64:
 		y, ok := a.(float64)
 		return ok && x == y
+	case float32:
+		y, ok := a.(float64)
+		return ok && float64(x) == y
+	case *bool:
+		return zzDeepEqual(a, *x)
+	case *float64:
+		y, ok := a.(float64)
+		return ok && *x == y
+	case *string:
+		return zzDeepEqual(a, *x)
+	case [2]int:
+		return zzDeepEqual(a, []interface{}{x[0], x[1]})
+	case int64:
+		return zzDeepEqual(a, int(x))
+	case int32:
+		return zzDeepEqual(a, int(x))
+	case uint8:
+		return zzDeepEqual(a, int(x))
 	}
 	return zzDeepEqual(a, b)
 }
@@ -95,7 +113,7 @@ func ZZ_C10_defaults() {
 		"RED": &EnumValueConfig{Value: 0}, "GREEN": &EnumValueConfig{Value: 1}, "BLUE": &EnumValueConfig{Value: "b"}}})
 	in := NewInputObject(InputObjectConfig{Name: "In", Fields: InputObjectConfigFieldMap{
 		"a": &InputObjectFieldConfig{Type: Int}, "s": &InputObjectFieldConfig{Type: String}}})
-	ci := zzChoice("case", 12)
+	ci := zzChoice("case", 21)
 	var t Input
 	var def interface{}
 	switch ci {
@@ -123,6 +141,27 @@ func ZZ_C10_defaults() {
 		t, def = NewList(color), []interface{}{1, "b"}
 	case 11:
 		t, def = ID, "id1"
+	case 12: // integer defaults of other Go kinds
+		t, def = Int, int64(7)
+	case 13:
+		t, def = Int, int32(-3)
+	case 14:
+		t, def = NewNonNull(Int), uint8(200)
+	case 15:
+		t, def = Float, float32(1.5)
+	case 16:
+		t, def = NewList(Int), []int{4, 5}
+	case 17: // defaults given through pointers
+		b := true
+		t, def = Boolean, &b
+	case 18:
+		f := 2.5
+		t, def = Float, &f
+	case 19:
+		str := "ptr"
+		t, def = String, &str
+	case 20: // a Go array
+		t, def = NewList(Int), [2]int{6, 7}
 	}
 	inField := zzChoice("site", 2) == 1 // argument default or input-object field default
 	var q *Object
@@ -229,8 +268,10 @@ func ZZ_C10_structure() {
 		"node": &Field{Type: node},
 		"me":   &Field{Type: a, Resolve: func(p ResolveParams) (interface{}, error) { return 1, nil }},
 	}})
+	// DirIn is referenced by the directive only
+	dirIn := NewInputObject(InputObjectConfig{Name: "DirIn", Fields: InputObjectConfigFieldMap{"f": &InputObjectFieldConfig{Type: Int}}})
 	custom := NewDirective(DirectiveConfig{Name: "custom", Locations: []string{DirectiveLocationField, DirectiveLocationQuery},
-		Args: FieldConfigArgument{"x": &ArgumentConfig{Type: Int}}})
+		Args: FieldConfigArgument{"x": &ArgumentConfig{Type: Int}, "y": &ArgumentConfig{Type: NewList(dirIn)}}})
 	cfg := SchemaConfig{Query: q, Directives: append([]*Directive{custom}, SpecifiedDirectives...)}
 	if appendMode == 0 {
 		cfg.Types = []Type{a, b}
@@ -252,6 +293,7 @@ func ZZ_C10_structure() {
   n: __type(name:"Node"){ kind name possibleTypes{name} fields{name} interfaces{name} }
   a: __type(name:"A"){ kind name interfaces{name} possibleTypes{name} fields(includeDeprecated:` + dep + `){name isDeprecated deprecationReason type{` + zzTypeRef + `}} }
   c: __type(name:"Color"){ kind enumValues(includeDeprecated:` + dep + `){name isDeprecated deprecationReason} }
+  di: __type(name:"DirIn"){ kind inputFields{name} }
   me { __typename }
 }`
 	r := Do(Params{Schema: schema, RequestString: query})
@@ -262,17 +304,19 @@ func ZZ_C10_structure() {
 	sch := data["__schema"].(map[string]interface{})
 	zzAssert(sch["queryType"].(map[string]interface{})["name"] == "Query", "queryType")
 	zzAssert(sch["mutationType"] == nil && sch["subscriptionType"] == nil, "absent root types")
-	zzAssert(zzSameSet(zzNamesOf(sch["types"]), "Query", "Node", "A", "B", "Color", "ID", "Int", "String", "Boolean",
+	zzAssert(zzSameSet(zzNamesOf(sch["types"]), "Query", "Node", "A", "B", "Color", "DirIn", "ID", "Int", "String", "Boolean",
 		"__Schema", "__Type", "__TypeKind", "__Field", "__InputValue", "__EnumValue", "__Directive", "__DirectiveLocation"), "type set")
 	zzAssert(zzSameSet(zzNamesOf(sch["directives"]), "custom", "include", "skip", "deprecated"), "directives")
 	for _, d := range sch["directives"].([]interface{}) {
 		dm := d.(map[string]interface{})
 		if dm["name"] == "custom" {
-			zzAssert(zzSameSet(zzNamesOf(dm["args"]), "x"), "custom directive args")
+			zzAssert(zzSameSet(zzNamesOf(dm["args"]), "x", "y"), "custom directive args")
 			locs, _ := dm["locations"].([]interface{})
 			zzAssert(len(locs) == 2, "custom directive locations")
 		}
 	}
+	di, _ := data["di"].(map[string]interface{})
+	zzAssert(di != nil && di["kind"] == "INPUT_OBJECT", "a type referenced by a directive argument is not described by __type")
 	n := data["n"].(map[string]interface{})
 	zzAssert(n["kind"] == "INTERFACE", "Node kind")
 	zzAssert(zzSameSet(zzNamesOf(n["possibleTypes"]), "A", "B"), "possible types of Node: each implementer exactly once")
